@@ -49,9 +49,10 @@ pub type Sequencer = u64;
 /// Maintains state for the ORL.
 #[derive(Clone, Debug, Eq, Hash, PartialEq)]
 pub struct StateWrapper<Msg, State> {
-    // send side
-    next_send_seq: Sequencer,
-    msgs_pending_ack: HashableHashMap<Sequencer, (Id, Msg)>,
+    // send side (sequencers are per destination so that a receiver can tell a gap from a message
+    // that was addressed to someone else)
+    next_send_seqs: HashableHashMap<Id, Sequencer>,
+    msgs_pending_ack: HashableHashMap<(Id, Sequencer), Msg>,
 
     // receive (ack'ing) side
     last_delivered_seqs: HashableHashMap<Id, Sequencer>,
@@ -89,7 +90,7 @@ where
 
         let mut wrapped_out = Out::new();
         let mut state = StateWrapper {
-            next_send_seq: 1,
+            next_send_seqs: Default::default(),
             msgs_pending_ack: Default::default(),
             last_delivered_seqs: Default::default(),
             wrapped_state: self.wrapped_actor.on_start(id, &mut wrapped_out),
@@ -108,11 +109,17 @@ where
     ) {
         match msg {
             MsgWrapper::Deliver(seq, wrapped_msg) => {
-                // Always ack the message to prevent re-sends, and early exit if already delivered.
-                o.send(src, MsgWrapper::Ack(seq));
-                if seq <= *state.last_delivered_seqs.get(&src).unwrap_or(&0) {
+                // Ack what was already delivered to prevent re-sends, and ignore (without an ack,
+                // so that it is sent again) anything that would leave a gap.
+                let last_delivered_seq = *state.last_delivered_seqs.get(&src).unwrap_or(&0);
+                if seq <= last_delivered_seq {
+                    o.send(src, MsgWrapper::Ack(seq));
                     return;
                 }
+                if seq != last_delivered_seq + 1 {
+                    return;
+                }
+                o.send(src, MsgWrapper::Ack(seq));
 
                 // Process the message, and early exit if ignored.
                 let mut wrapped_state = Cow::Borrowed(&state.wrapped_state);
@@ -124,16 +131,14 @@ where
                     wrapped_msg,
                     &mut wrapped_out,
                 );
-                if is_no_op(&wrapped_state, &wrapped_out) {
-                    return;
-                }
 
-                // Never delivered, and not ignored by actor, so update the sequencer and process the original output.
+                // Never delivered, so update the sequencer (even if the actor ignored the message,
+                // otherwise it would be handed over again) and process the original output.
                 if let Cow::Owned(wrapped_state) = wrapped_state {
                     // Avoid unnecessarily cloning wrapped_state by not calling to_mut() in this
                     // case.
                     *state = Cow::Owned(StateWrapper {
-                        next_send_seq: state.next_send_seq,
+                        next_send_seqs: state.next_send_seqs.clone(),
                         msgs_pending_ack: state.msgs_pending_ack.clone(),
                         last_delivered_seqs: state.last_delivered_seqs.clone(),
                         wrapped_state,
@@ -143,7 +148,9 @@ where
                 process_output(state.to_mut(), wrapped_out, o);
             }
             MsgWrapper::Ack(seq) => {
-                state.to_mut().msgs_pending_ack.remove(&seq);
+                if state.msgs_pending_ack.contains_key(&(src, seq)) {
+                    state.to_mut().msgs_pending_ack.remove(&(src, seq));
+                }
             }
         }
     }
@@ -158,7 +165,7 @@ where
         match timer {
             TimerWrapper::Network => {
                 o.set_timer(TimerWrapper::Network, self.resend_interval.clone());
-                for (seq, (dst, msg)) in &state.msgs_pending_ack {
+                for ((dst, seq), msg) in &state.msgs_pending_ack {
                     o.send(*dst, MsgWrapper::Deliver(*seq, msg.clone()));
                 }
             }
@@ -196,14 +203,14 @@ fn process_output<A: Actor>(
                 todo!("SetTimer is not supported at this time");
             }
             Command::Send(dst, inner_msg) => {
-                o.send(
-                    dst,
-                    MsgWrapper::Deliver(state.next_send_seq, inner_msg.clone()),
-                );
-                state
-                    .msgs_pending_ack
-                    .insert(state.next_send_seq, (dst, inner_msg));
-                state.next_send_seq += 1;
+                let seq = {
+                    let next_send_seq = state.next_send_seqs.entry(dst).or_insert(1);
+                    let seq = *next_send_seq;
+                    *next_send_seq += 1;
+                    seq
+                };
+                o.send(dst, MsgWrapper::Deliver(seq, inner_msg.clone()));
+                state.msgs_pending_ack.insert((dst, seq), inner_msg);
             }
             Command::ChooseRandom(_, _) => {
                 todo!("ChooseRandom is not supported at this time");
